@@ -405,6 +405,7 @@ def compose(facts, prod_e, cons_e, fprod, aprod, fcons, acons, key_name=None):
             st.events.append(("parse_raw_token", [PS.cd(I, st, a) for a in args[:2]]))
             return A.ok(pseq)
         I = PS.interp(facts, stubs=[(r"parse_raw_token$", prt)])
+        I.composition = True
         st = A.State()
         # what the producing path knows about the symbolic lengths (e.g. len(F) == 0) holds on the consuming side as well
         st.bounds = dict(o.state.bounds)
@@ -476,6 +477,35 @@ def roundtrip_rules(facts, prod_e, cons_e):
     return out, None
 
 
+def cross_rules(facts, by):
+    """C07.S5: an authentic token of protocol X fails the cryptography of every other protocol Y of the same purpose even when it is relabelled to
+    Y's header (the consuming side of Y run on the producing side of X's symbolic payload returns no Ok on any path)."""
+    out = []
+    und = []
+    for (role, vpx), px in sorted(by.items()):
+        if role != "producer":
+            continue
+        for (role2, vpy), cy in sorted(by.items()):
+            if role2 != "consumer" or vpy == vpx or vpy[1] != vpx[1]:
+                continue
+            v = M.view(facts, cy.body)
+            probs = []
+            try:
+                runs, why = compose(facts, px, cy, False, False, False, False)
+            except Exception as ex:
+                runs, why = None, "interpreter error %r" % (ex,)
+            if runs is None:
+                und.append((cy.id, "cross %s->%s" % (px.label, cy.label), why))
+                continue
+            for I, o in [(I_, o_) for I_, outs_, _pc in runs for o_ in outs_]:
+                kind, r = _variant(I, o)
+                if kind == "Ok":
+                    probs.append("the payload of an authentic %s.%s token is accepted by %s.%s [%s]" % (vpx[0].lower(), vpx[1].lower(), vpy[0].lower(), vpy[1].lower(), " & ".join(o.state.cond)[-160:]))
+            out.append(Finding("C07.S5", not probs, cy.id, "cross-protocol payload rejected" if not probs else probs[0][:90], "; ".join(sorted(set(probs)))[:800], v.file(), cy.body["line"],
+                               "%s.%s does not accept the payload of an authentic %s.%s token" % (vpy[0].lower(), vpy[1].lower(), vpx[0].lower(), vpx[1].lower())))
+    return out, und
+
+
 _memo = {}
 
 
@@ -507,5 +537,11 @@ def analyse(facts, entries):
                 res["undecided"].append((c.id, "roundtrip", why))
             else:
                 res["findings"] += fs
+    try:
+        fs, und = cross_rules(facts, by)
+        res["findings"] += fs
+        res["undecided"] += und
+    except Exception as ex:
+        res["undecided"].append(("(cross protocol)", "cross", "interpreter error %r" % (ex,)))
     _memo[k] = res
     return res
